@@ -216,6 +216,10 @@ class CallMixin:
             return res
         if name == "print":
             return [(p, NoneV)]
+        if name == "attrgetter" and len(args) == 1 and args[0].tag == "str":
+            z = z3.Const(f"attrgetter!{args[0].z}", L.Val)
+            p.assume(z != L.VNONE, L.v_callable(z), L.v_truthy(z))
+            return [(p, SV("val", z))]
         if name == "str" and len(args) == 1 and not kwargs:
             # str(x): an abstract, total conversion (user __str__ of data objects assumed not to raise and not to touch the tree)
             a = args[0]
